@@ -10,7 +10,7 @@ from ..core import Ctx
 from ..flow import AV
 from ..model import AnalysisError, body_stmts, dotted, kwarg, norm, walk_no_nested
 from .c03 import rule_fast_cache
-from .common import assigned_value, bound_args, enclosing, key_function, prog, resolve_local, stores_to
+from .common import assigned_value, bound_args, enclosing, key_function, pnorm, prog, resolve_local, stores_to
 
 FAST = "Continuum.get_fast_alignment"
 
@@ -80,7 +80,7 @@ def rule_progress(ctx: Ctx):
     if not ok_w:
         return
     wv, xl = norm(win[0].targets[0].elts[0]), norm(win[0].targets[0].elts[1])
-    ba = [s for s in W.body if isinstance(s, ast.Assign) and norm(s.value) == f"{wv}.get_best_alignment({f.params[1]})"]
+    ba = [s for s in W.body if isinstance(s, ast.Assign) and pnorm(M, s.value) == f"{wv}.get_best_alignment({f.params[1]})"]
     ctx.check(len(ba) == 1, "R-C10-2", f, ba[0] if ba else W, "the window is aligned exactly (get_best_alignment) with the same dissimilarity", key="window-best")
     if not ba:
         return
@@ -213,8 +213,8 @@ def rule_fallback(ctx: Ctx):
     ifs = [i for i in walk_no_nested(j.node) if isinstance(i, ast.If)]
     rets = [r for r in walk_no_nested(j.node) if isinstance(r, ast.Return)]
     ok = len(ifs) == 1 and norm(ifs[0].test) in (f"{cp}.best_window_size == np.inf", f"np.isinf({cp}.best_window_size)") and \
-        len(ifs[0].body) == 1 and isinstance(ifs[0].body[0], ast.Return) and norm(ifs[0].body[0].value) == f"{cp}.get_best_alignment({dp})" and \
-        any(norm(r.value) == f"{cp}.get_fast_alignment({dp}, {cp}.best_window_size)" for r in rets) and len(rets) == 2
+        len(ifs[0].body) == 1 and isinstance(ifs[0].body[0], ast.Return) and pnorm(M, ifs[0].body[0].value) == f"{cp}.get_best_alignment({dp})" and \
+        any(pnorm(M, r.value) == f"{cp}.get_fast_alignment({dp}, {cp}.best_window_size)" for r in rets) and len(rets) == 2
     ctx.check(ok, "R-C10-4", j, ifs[0] if ifs else None, "fast mode uses the exact algorithm exactly when best_window_size is the 'disadvantageous' sentinel (inf)",
               bad_detail="the fast job does not fall back to get_best_alignment exactly on the sentinel window size", key="job")
     init = ctx.fn("Continuum.__init__", "R-C10-4")
